@@ -15,12 +15,16 @@ use serde_json::{Value, json};
 use std::net::{IpAddr, Ipv4Addr, Ipv6Addr, SocketAddr};
 use std::sync::{Arc, Mutex};
 use std::time::Duration;
+use tokio::io::{AsyncReadExt, AsyncWriteExt};
 
 #[derive(Clone, Debug)]
 pub enum Via {
     Api,
     Socks5,
     FragmentedHeader(Vec<usize>),
+    /// through the HTTP front-end: 0 = CONNECT authority, 1 = absolute URI with a matching Host header,
+    /// 2 = absolute URI with a Host header naming somebody else (the URI decides), 3 = origin-form + Host
+    Http(u8),
 }
 
 #[derive(Clone, Debug)]
@@ -126,6 +130,7 @@ pub fn gen_req(rng: &mut Rng, i: usize, target_port: u16, v6_port: u16, via: Via
 struct World {
     client: Arc<anytls_rs::client::Client>,
     socks: String,
+    http: String,
     target_port: u16,
     v6_port: u16,
     target_accepts: Arc<Mutex<Vec<(SocketAddr, tokio::time::Instant)>>>,
@@ -157,6 +162,36 @@ async fn issue(w: &World, r: &Req) -> Result<String, String> {
             }
         }
         Via::FragmentedHeader(cuts) => fragmented_header(r, cuts).await,
+        Via::Http(kind) => {
+            let authority = if r.host.contains(':') { format!("[{}]:{}", r.host, r.port) } else { format!("{}:{}", r.host, r.port) };
+            let head = match kind {
+                0 => format!("CONNECT {authority} HTTP/1.1\r\nHost: {authority}\r\n\r\n"),
+                1 => format!("GET http://{authority}/c07 HTTP/1.1\r\nHost: {authority}\r\nAccept: */*\r\n\r\n"),
+                2 => {
+                    let other = ["decoy.c07.test:1", "127.250.250.250", "decoy.c07.test"][(r.port as usize) % 3];
+                    format!("GET http://{authority}/c07 HTTP/1.1\r\nHost: {other}\r\nAccept: */*\r\n\r\n")
+                }
+                _ => format!("GET /c07 HTTP/1.1\r\nAccept: */*\r\nHost: {authority}\r\n\r\n"),
+            };
+            let r: Result<String, String> = async {
+                let mut s = tokio::net::TcpStream::connect(&w.http).await.map_err(|e| e.to_string())?;
+                s.write_all(head.as_bytes()).await.map_err(|e| e.to_string())?;
+                let mut got = Vec::new();
+                let mut buf = [0u8; 1024];
+                let _ = tokio::time::timeout(Duration::from_secs(40), async {
+                    while !got.windows(2).any(|x| x == b"\r\n") {
+                        match s.read(&mut buf).await {
+                            Ok(n) if n > 0 => got.extend_from_slice(&buf[..n]),
+                            _ => break,
+                        }
+                    }
+                })
+                .await;
+                Ok(format!("http:{}", String::from_utf8_lossy(&got).lines().next().unwrap_or("")))
+            }
+            .await;
+            r
+        }
     }
 }
 
@@ -215,7 +250,7 @@ fn judge(rep: &mut Report, r: &Req, outcome: &Result<String, String>, events: &[
     let key = format!("{}|{}", r.host, r.port);
     rep.case(Some(hash_str(&format!("{key}|{:?}", r.via))));
     rep.add(&format!("requests_{}", r.class()), 1);
-    rep.add(&format!("requests_via_{}", match r.via { Via::Api => "api", Via::Socks5 => "socks5", Via::FragmentedHeader(_) => "fragmented_header" }), 1);
+    rep.add(&format!("requests_via_{}", match r.via { Via::Api => "api", Via::Socks5 => "socks5", Via::FragmentedHeader(_) => "fragmented_header", Via::Http(_) => "http_front_end" }), 1);
     if let Err(e) = outcome {
         rep.inconclusive(format!("{key}: {e}"));
         return;
@@ -269,7 +304,7 @@ fn judge(rep: &mut Report, r: &Req, outcome: &Result<String, String>, events: &[
     let sym = if !dest_ok { "destination_decoded_wrong_or_not_at_all" } else { "dialled_address_differs" };
     rep.violate(
         "destination",
-        &format!("{}+{}", r.class(), match r.via { Via::Api => "api", Via::Socks5 => "socks5", Via::FragmentedHeader(_) => "fragmented_header" }),
+        &format!("{}+{}", r.class(), match r.via { Via::Api => "api", Via::Socks5 => "socks5", Via::FragmentedHeader(_) => "fragmented_header", Via::Http(_) => "http_front_end" }),
         sym,
         format!("request for {}:{} (host length {}) must be dialled at {exp}; no such dial was observed (outcome {:?}); related events: {:?}", r.host, r.port, r.host.len(), outcome, same_host),
         r.describe(),
@@ -280,6 +315,7 @@ async fn build_world() -> Option<World> {
     let (server_addr, sh) = netkit::start_server(netkit::PASSWORD, engine::default_padding()).await?;
     let client = netkit::make_client(&server_addr, netkit::PASSWORD, engine::default_padding(), netkit::quiet_pool());
     let (socks, kh) = netkit::start_socks5(client.clone()).await?;
+    let (http, hh) = netkit::start_http(client.clone()).await?;
     let mut t4 = Target::bind_v4(0).await?;
     let mut t6 = Target::bind_v6_loopback(0).await?;
     let (target_port, v6_port) = (t4.port, t6.port);
@@ -294,7 +330,7 @@ async fn build_world() -> Option<World> {
             netkit::spawn_echo(a.stream);
         }
     });
-    Some(World { client, socks, target_port, v6_port, target_accepts: a4, v6_accepts: a6, _keep: vec![sh, kh, d4, d6] })
+    Some(World { client, socks, http, target_port, v6_port, target_accepts: a4, v6_accepts: a6, _keep: vec![sh, kh, hh, d4, d6] })
 }
 
 /// cache histories through `resolve_host_with_cache` directly and through full requests
@@ -469,6 +505,7 @@ pub fn run(ctx: Ctx) -> Report {
     let n_api = ctx.tier.pick(450, 9000);
     let n_socks = ctx.tier.pick(180, 3000);
     let n_frag = ctx.tier.pick(180, 3000);
+    let n_http = ctx.tier.pick(160, 3000);
     let seed = ctx.seed;
     run::case_begin("C07 e2e");
     let out = run::rt_block_on(8, async move {
@@ -493,6 +530,14 @@ pub fn run(ctx: Ctx) -> Report {
         }
         for i in 0..n_socks {
             reqs.push(gen_req(&mut rng, i, w.target_port, w.v6_port, Via::Socks5));
+        }
+        for i in 0..n_http {
+            // names must be spellable in a request line: the generated names are, literals too
+            let mut r = gen_req(&mut rng, i, w.target_port, w.v6_port, Via::Http((i % 4) as u8));
+            if r.port == 0 {
+                r.port = w.target_port;
+            }
+            reqs.push(r);
         }
         for i in 0..n_frag {
             let mut r = gen_req(&mut rng, i, w.target_port, w.v6_port, Via::Api);
@@ -558,9 +603,9 @@ pub fn run(ctx: Ctx) -> Report {
 pub fn meta() -> CheckMeta {
     CheckMeta {
         level: "exploration",
-        rule: "real Client -> real Server (TcpProxyHandler) over loopback TLS with a fake DNS server behind the real resolver (name -> 127.h(name)); requests through Client::create_proxy_stream, through the real SOCKS5 front-end, and with the destination header split over 1..n PSH frames and small read pieces into the real TcpProxyHandler on a MemPipe session: IPv4 literals (uniform, 127/8, 0.0.0.0, 255.255.255.255), IPv6 literals (uniform, ::, ::1, v4-mapped, link-local), domain names of every length class 1..255 (labels <= 63), ports {0,1,255,256,443,32767,32768,65535, the listening ports, uniform}. Oracle: the server-side hook events must contain the decoded destination and a Dial to exactly (address of the requested host, requested port); loopback-reachable ones are additionally confirmed by accept on wildcard listeners. UDP associations: UdpTarget event equals the requested socket address. Cache histories: sequences over 3 names + localhost x ports through resolve_host_with_cache directly and through full requests, each answer / dial compared with (address of THIS name, port of THIS request); plus overlapping lookups / requests for the same uncached name with 2-4 different ports (each must get its own port); thorough crosses the 60 s cache lifetime once. distinct_nontrivial = distinct (host, port, path).".into(),
+        rule: "real Client -> real Server (TcpProxyHandler) over loopback TLS with a fake DNS server behind the real resolver (name -> 127.h(name)); requests through Client::create_proxy_stream, through the real SOCKS5 front-end, and with the destination header split over 1..n PSH frames and small read pieces into the real TcpProxyHandler on a MemPipe session: IPv4 literals (uniform, 127/8, 0.0.0.0, 255.255.255.255), IPv6 literals (uniform, ::, ::1, v4-mapped, link-local), domain names of every length class 1..255 (labels <= 63), ports {0,1,255,256,443,32767,32768,65535, the listening ports, uniform}. Oracle: the server-side hook events must contain the decoded destination and a Dial to exactly (address of the requested host, requested port); loopback-reachable ones are additionally confirmed by accept on wildcard listeners. UDP associations: UdpTarget event equals the requested socket address. Cache histories: sequences over 3 names + localhost x ports through resolve_host_with_cache directly and through full requests, each answer / dial compared with (address of THIS name, port of THIS request); plus overlapping lookups / requests for the same uncached name with 2-4 different ports (each must get its own port); thorough crosses the 60 s cache lifetime once. distinct_nontrivial = distinct (host, port, path). Also through the HTTP front-end: CONNECT authority, absolute URI with a matching Host header, absolute URI with a Host header naming another host / port / no port (the URI decides), origin-form + Host; same hosts and ports, same oracle.".into(),
         assumptions: vec!["non-local connects are refused at once in this sandbox, so the real dial happens and fails fast; the Dial hook fires immediately before TcpStream::connect".into(), "fake DNS answers A records only (AAAA: empty), one address per name".into()],
-        floors: vec![("dials_to_requested_address", 500), ("requests_domain_name", 150), ("requests_ipv6_literal", 100), ("confirmed_by_loopback_accept", 30), ("cache_history_steps", 100), ("concurrent_cache_fills", 20), ("udp_targets_decoded_as_requested", 15), ("requests_via_fragmented_header", 100)],
+        floors: vec![("dials_to_requested_address", 500), ("requests_domain_name", 150), ("requests_ipv6_literal", 100), ("confirmed_by_loopback_accept", 30), ("cache_history_steps", 100), ("concurrent_cache_fills", 20), ("udp_targets_decoded_as_requested", 15), ("requests_via_fragmented_header", 100), ("requests_via_http_front_end", 100)],
         exhaustive: false,
     }
 }
